@@ -115,6 +115,32 @@ def ob_form_after_motion(et):
     return Verdict(DISCHARGED, backend="native form vs built-in operator", sub=n)
 
 
+def ob_form_complex(kind):
+    """complex-valued forms (Helmholtz-type operator grad u . grad v - k^2 u v with complex k, complex source): Integrate_e / Assemble / the simulation keep the imaginary part"""
+    from EasyFEA.FEM import Field, BiLinearForm, LinearForm, Operators
+    from EasyFEA.FEM._utils import MatrixType
+    mesh = patches.two_element_mesh("TRI3")
+    grp = mesh.groupElem
+    fld = Field(grp, 1)
+    mt = getattr(fld, "matrixType", MatrixType.mass)
+    k2 = (2 + 0.5j) ** 2
+    if kind == "bilinear":
+        form = BiLinearForm(lambda u, v: u.grad.dot(v.grad) - k2 * (u * v))
+        want = np.asarray(Operators.Bilinear.GradUGradV(grp, 1.0, mt)) - k2 * np.asarray(Operators.Bilinear.UV(grp, 1.0, 1, mt))
+    else:
+        form = LinearForm(lambda v: (1 + 2j) * v)
+        want = (1 + 2j) * np.asarray(Operators.Linear.V(grp, 1.0, 1, mt))
+    got = np.asarray(form.Integrate_e(field=fld))
+    e = float(np.abs(got.reshape(want.shape) - want).max() / np.abs(want).max())
+    if e > 1e-12:
+        raise Refuted(f"complex {kind} form: Integrate_e (dtype {got.dtype}) differs from the complex combination of the built-in operators by {e:.3e}: the imaginary part "
+                      f"(max {np.abs(want.imag).max():.3e}) is {'dropped' if not np.iscomplexobj(got) else 'wrong'}", cex=dict(kind=kind), signature=f"form:complex:{kind}", replay=dict(confirmed=True, rel_err=e))
+    A = form.Assemble(fld)
+    if not np.iscomplexobj(A.toarray()) or abs(np.abs(A.toarray().imag).sum() - np.abs(want.imag).sum()) > 1e-9 * np.abs(want.imag).sum() and kind == "linear":
+        raise Refuted(f"complex {kind} form: Assemble returns dtype {A.dtype}", cex=dict(kind=kind), signature=f"form:complex:{kind}:assemble", replay=dict(confirmed=True))
+    return Verdict(DISCHARGED, backend="native form vs built-in operators", sub=2)
+
+
 def ob_assemble_scatter(kind):
     """X: Form.Assemble == dense scatter-add of Integrate_e's element arrays, on non-symmetric forms"""
     r = _replay_assemble(kind)
@@ -728,6 +754,9 @@ def build(tier, seed):
     for kind in ("bilinear", "linear"):
         obs.append(Ob(f"C13.assemble.scatter.{kind}", ob_assemble_scatter, (kind,), "X", (f"{FP}::{'BiLinearForm' if kind == 'bilinear' else 'LinearForm'}.Assemble",),
                       bound="TRI3 scalar convection form and QUAD4 vector shear form on two-element patches", clause="Assemble(field) == sum_e scatter(Integrate_e) with K_e[e,i,j] at (a[e,i], a[e,j])"))
+    for kind in ("bilinear", "linear"):
+        obs.append(Ob(f"C13.form.complex.{kind}", ob_form_complex, (kind,), "X", (f"{FP}::{'BiLinearForm' if kind == 'bilinear' else 'LinearForm'}.Integrate_e",), bound="two-element TRI3 patch, one complex coefficient",
+                      clause="a complex-valued form keeps its imaginary part through Integrate_e and Assemble"))
     for et in ("TRI3", "QUAD4", "TRI6", "TETRA4"):
         obs.append(Ob(f"C13.form.motion.{et}", ob_form_after_motion, (et,), "X", (f"{FP}::BiLinearForm.Integrate_e", "EasyFEA/FEM/_field.py::Field.copy"), bound="two-element patch, one rotation, one stretch",
                       clause="the same form and field integrated again after the mesh moved == the built-in operator on the new geometry"))
